@@ -11,14 +11,26 @@ section
 variable {K : Type} [Add K] [Sub K] [Mul K] [Div K] [Neg K] [Zero K] [One K] [NatCast K]
   [LT K] [LE K] [DecidableRel (α := K) (· < ·)] [DecidableRel (α := K) (· ≤ ·)] [DecidableEq K]
 
-/-- `operations.split_curve` / `split_surface_u` / `split_surface_v` WITH all exceptions of the code:
-    `none` = the implementation raises.  Besides the rejection at the two domain ends (`splitDir`), the
+/-- `operations.split_curve` / `split_surface_u` / `split_surface_v` with the exceptions of the code for a parameter
+    of the CLOSED DOMAIN `[U_p, U_n]` (all parameters the decomposition loop ever passes; the exception for a parameter
+    outside the domain is added by `splitDirD`): `none` = the implementation raises.  Besides the rejection at the two
+    domain ends (`splitDir`), the
     code raises `ValueError` ("Input is not a valid knot vector") when `find_multiplicity` reports more
     than `p` copies of the split parameter: then `r = p - s < 0`, `insert_knot` inserts nothing, and the
     control-point slices `[0 : ks + r]`, `[ks + r - 1 :]` do not fit the cut knot vectors
     (`|U| ≠ n + p + 1`). -/
 def splitDirE (S : Shape K) (dir : Nat) (u : K) (tol : K) : Option (Shape K × Shape K) :=
   if S.deg dir < findMultiplicity u (S.kv dir) tol then none else splitDir S dir u tol
+
+/-- `split_curve` / `split_surface_u` / `split_surface_v` WITH ALL exceptions of the code (what the driver op `split`
+    runs): in addition to `splitDirE`, a parameter OUTSIDE the closed domain `[U_p, U_n]` of the split direction makes the
+    code raise – below `U_p` / above `U_n` the span search returns the first / a late span, the cut knot vectors do not
+    fit the control-point slices (`ValueError: Input is not a valid knot vector`, or `GeomdlException` from
+    `set_ctrlpts`); for a clamped input these are the parameters outside the knot range, for an unclamped one also
+    the parameters between the outer knots and the domain (audit 4, H8: real code, 400 random curves / surfaces,
+    clamped and not, on and off knots, both sides: always an exception). -/
+def splitDirD (S : Shape K) (dir : Nat) (u : K) (tol : K) : Option (Shape K × Shape K) :=
+  if u < (S.kv dir).getD (S.deg dir) 0 ∨ (S.kv dir).getD (S.size dir) 0 < u then none else splitDirE S dir u tol
 
 /-- `operations.decompose_curve` / one direction of `decompose_surface` WITH the exceptions of the code:
     `none` = the implementation raises.  The loop of the code takes the knots `U[p+1 : -(p+1)]` of the
